@@ -18,6 +18,8 @@ CONSTANTS
   CachePutFails = TRUE
   CrashInCreate = TRUE
   IssuerEntries = {}
+  MaxTampers = 0
+  VerifyEdge = TRUE
   Stops = TRUE
 PROPERTIES NoStrandedSubmitter
 CHECK_DEADLOCK FALSE
